@@ -54,10 +54,11 @@ DoParse(st, s, i) ==
   IF Accepts(t) THEN Put(st, s, Components(t), FALSE, {BufDep(i)}) ELSE st
 \* uriMakeOwner: same value, own copies of all text
 DoMakeOwner(st, s) == [st EXCEPT !.slot[s].owner = TRUE, !.slot[s].deps = {}]
-\* uriNormalizeSyntaxEx: mask 0 changes nothing, not even ownership; otherwise the slot owns its text afterwards.
+\* uriNormalizeSyntaxEx: mask 0 changes nothing, not even ownership; ANY other mask - also one whose bits name no component -
+\* leaves the slot owning its text (C12: "after normalization with any non-zero mask").
 \* An owning slot is transformed in place, so whatever borrowed its text is invalidated.
 DoNormalizeTo(st, s, m, v) ==
-  IF m % 64 = 0 THEN st
+  IF m = 0 THEN st
   ELSE LET sl == IF st.slot[s].owner THEN Invalidate(st.slot, SlotDep(s)) ELSE st.slot IN
        Put([st EXCEPT !.slot = sl], s, v, TRUE, {})
 DoNormalize(st, s, m) == DoNormalizeTo(st, s, m, Normalize(st.slot[s].val, m % 64))
